@@ -141,6 +141,43 @@ func (p *progBuilder) canon(e ast.Expr, depth int) string {
 	return p.inner(e)
 }
 
+// timeCond renders the hidden-mode timestamp condition independently of variable names: locals are
+// replaced by their definitions, the 64-bit big-endian decoding of the timestamp field becomes TS
+// and the clock reading NOW; what remains are the comparisons, conversions and the constant.
+func (p *progBuilder) timeCond(e ast.Expr) string {
+	var subst func(e ast.Expr, depth int) string
+	subst = func(e ast.Expr, depth int) string {
+		switch x := e.(type) {
+		case *ast.Ident:
+			if d, ok := p.defs[x.Name]; ok && depth < 3 {
+				return subst(d, depth+1)
+			}
+			return x.Name
+		case *ast.ParenExpr:
+			return "(" + subst(x.X, depth) + ")"
+		case *ast.BinaryExpr:
+			return subst(x.X, depth) + " " + x.Op.String() + " " + subst(x.Y, depth)
+		case *ast.UnaryExpr:
+			return x.Op.String() + subst(x.X, depth)
+		case *ast.CallExpr:
+			fn := exprStr(x.Fun)
+			if fn == "binary.BigEndian.Uint64" {
+				return "TS"
+			}
+			if fn == "time.Now().Unix" {
+				return "NOW"
+			}
+			var args []string
+			for _, a := range x.Args {
+				args = append(args, subst(a, depth))
+			}
+			return fn + "(" + strings.Join(args, ", ") + ")"
+		}
+		return exprStr(e)
+	}
+	return subst(e, 0)
+}
+
 // inner replaces views of the message by `msg[lo:hi]` and leaves every other name alone.
 func (p *progBuilder) inner(e ast.Expr) string {
 	switch x := e.(type) {
@@ -442,8 +479,8 @@ func (p *progBuilder) walk(list []ast.Stmt) {
 				}
 			case strings.Contains(cond, "PlaintextLen(len(msg)) <"):
 				p.emit(".constCheck %s %s", q(cond), b2l(leaves(s.Body)))
-			case strings.Contains(cond, "timeBytes"):
-				p.emit(".timeCheck %s", b2l(leaves(s.Body)))
+			case strings.Contains(cond, "HiddenModeTimestampExpiration"):
+				p.emit(".timeCheck %s %s", q(p.timeCond(s.Cond)), b2l(leaves(s.Body)))
 			case cond == "!s.config.IsHidden":
 				p.emit(".constCheck %s true", q(cond))
 				p.walk(s.Body.List)
